@@ -85,6 +85,17 @@ def base_cases(seed, tier):
             {'op': 'save', 'file': 0, 'top': 0, 'tp': [], 'mode': 'w', 'tree': True},
             {'op': 'save', 'file': 0, 'top': 2, 'tp': [], 'mode': 'a', 'tree': True},
             st], 'kind': kind, 'oracle_only': True})
+    # a failing append after an earlier, successful append of the same process added a branch to the same tree: what that earlier
+    # append added is in the file now and stays (tops[2] is a tree called 'r' too here: step 1 appends it into the tree of step 0)
+    for i in range(max(3, n // 10)):
+        ft = {'cls': 'Root', 'name': 'r', 'tok': 0, 'rank': 0, 'mds': [], 'kids': [nd('arr', 'Array', [nd('x')]), nd('keep', 'Node', [nd('sub', 'PointList')])]}
+        hist = {'cls': 'Root', 'name': 'r', 'tok': 0, 'rank': 0, 'mds': [], 'kids': [nd('earlier', rng.choice(['Node', 'Array']), [nd('e2', 'Array')]), nd('keep', 'Node', [nd('e3')])]}
+        rt = {'cls': 'Root', 'name': 'r', 'tok': 0, 'rank': 0, 'mds': [], 'kids': [nd('keep', 'Node', [nd('late1', 'Array')]), nd('late2', 'Array', [nd(rng.choice(['data', 'dim0', 'fine']))]), nd('late3')]}
+        old_paths = ['/'.join(['r'] + p_) for p_ in T.all_paths(ft)] + ['/'.join(['r'] + p_) for p_ in T.all_paths(hist) if p_]
+        out.append({'tops': [ft, rt, hist], 'steps': [
+            {'op': 'save', 'file': 0, 'top': 0, 'tp': [], 'mode': 'w', 'tree': True},
+            {'op': 'save', 'file': 0, 'top': 2, 'tp': [], 'mode': 'a', 'tree': True},
+            {'op': 'save', 'file': 0, 'top': 1, 'tp': [], 'mode': ['a', 'ao', 'append'][i % 3], 'tree': True, 'probe': old_paths}], 'kind': 'H', 'oracle_only': True})
     # list saves into a file that already holds the shared root of an earlier list save (and another tree): a failing second list
     # save must leave the first list's items where they were
     for i in range(max(2, n // 6)):
